@@ -415,6 +415,14 @@ func VerifRegistersDiffer(L *LState, lo, hi int, ref []LValue) int {
 // VerifRegCap is len(reg.array).
 func VerifRegCap(L *LState) int { return len(L.reg.array) }
 
+// VerifShrinkRegistry gives an idle state (nothing on its value stack) the registry capacity it was
+// created with again, so that a reused state meets registry growth in every run like a fresh one.
+func VerifShrinkRegistry(L *LState) {
+	if L.reg.top == 0 && L.Options.RegistryMaxSize > L.Options.RegistrySize && cap(L.reg.array) > L.Options.RegistrySize {
+		L.reg.array = make([]LValue, L.Options.RegistrySize)
+	}
+}
+
 // VerifIsCurrentThread: the state executing a host function is the one the global state records
 // as running (coroutine.running/status are derived from that record).
 func VerifIsCurrentThread(L *LState) bool { return L.G.CurrentThread == nil || L.G.CurrentThread == L }
